@@ -169,6 +169,7 @@ type checkRun struct {
 type runOpts struct {
 	name    string
 	flags   map[string]string
+	lean    bool
 	sleepAt int // sleep 50ms in the sleepAt-th invocation after the reproduction run (deterministic mid-round cut)
 	noExit  bool
 }
@@ -180,7 +181,7 @@ func runProgram(p *Prog, o runOpts) *checkRun {
 func runBody(body func(x *X), o runOpts) *checkRun {
 	setFlags(o.flags)
 	tb := newTB(o.name)
-	lg := &Log{noExit: o.noExit}
+	lg := &Log{noExit: o.noExit, lean: o.lean}
 	afterRepro := -1
 	prop := lg.prop(func(x *X) {
 		if o.sleepAt > 0 {
